@@ -48,3 +48,12 @@ where
         std::sync::Arc::clone(&self.blockstore)
     }
 }
+
+/// Runs the block producer's slice-filling routine on the given transaction source.
+pub async fn verif_produce_slice_payload<T: TransactionNetwork>(
+    txs: &T,
+    parent: Option<BlockId>,
+    duration_left: std::time::Duration,
+) -> (crate::types::SlicePayload, std::time::Duration) {
+    super::block_producer::verif_produce_slice_payload(txs, parent, duration_left).await
+}
